@@ -38,7 +38,6 @@ def panicSites : List String := [
   "rules/standard/signbeaconattestation.go:signBeaconAttestationState.Encode:slice:data[9:17]",
   "rules/standard/signbeaconattestations.go:Service.runSignBeaconAttestationChecks:slice:req.Domain[0:4]",
   "rules/standard/signbeaconproposal.go:Service.OnSignBeaconProposal:slice:req.Domain[0:4]",
-  "rules/standard/signbeaconproposal.go:signBeaconProposalKey:slice:(*buf)[:0]",
   "rules/standard/signbeaconproposal.go:signBeaconProposalState.Decode:slice:data[1:9]",
   "rules/standard/signbeaconproposal.go:signBeaconProposalState.Encode:make:make([]byte, 1+8)",
   "rules/standard/signbeaconproposal.go:signBeaconProposalState.Encode:slice:data[1:9]",
